@@ -42,6 +42,10 @@ CLAIMS = {
          "TLA+ spec TxFilter on top of Bloom: MatchTxAndUpdate as BIP37 IsRelevantAndUpdate (result and post-state exact, bit-level via Murmur3) and the block scan as the relation Lower (least fixpoint of relevance under exact-set semantics) <= reported <= Upper (final filter bits); real transactions with random intra-block spend DAGs, every script shape, three update flags, topological / reverse / random orders are scanned through the three APIs and judged by TLC trace validation",
          "model checking of the underlying abstract filter plus TLC trace validation of recorded transaction matches and block scans against the BIP37 definition and the scan contract",
          "txscript push extraction / script class are environment facts; named deviations for unparsable scripts and empty pushes"),
+ "C20": ("DESIGN.md §4 C20",
+         "static: a lock-discipline model (paths of LOCK/UNLOCK/RD/WR atoms) is EXTRACTED from the current bloom/filter.go with go/ast and TLC checks every interleaving of K=2,3 threads for accesses outside the mutex, lock leaks and self-deadlock (BloomConc.tla); dynamic: -race build, up to 32 goroutines on one shared tiny filter, every call ticketed; TLC trace validation decides 'no insertion lost / membership after completed insertion' with BIP37 indices, and TLC searches for a linearization of small rounds with reload/unload (Lin_BloomConc.tla); race-detector reports are events no action accepts",
+         "model checking of all interleavings of the extracted lock discipline plus trace validation / linearization search of recorded concurrent executions",
+         "Go memory model not specified; dynamic part observes only the schedules that occurred"),
 }
 
 NOT_YET = "check not built yet in this round; see DESIGN.md for the planned TLA+ model"
